@@ -37,9 +37,16 @@ where
     F: Future<Output = T>,
 {
     let rt = build_rt(flavor);
-    let r = rt.block_on(async { tokio::time::timeout(bound, fut).await.ok() });
+    // a panic of the code under test on this thread (current-thread runtime) must not take the
+    // harness down: it is recorded by the panic hook and judged by `judge`
+    let r = std::panic::catch_unwind(std::panic::AssertUnwindSafe(|| rt.block_on(async { tokio::time::timeout(bound, fut).await.ok() })));
     rt.shutdown_timeout(Duration::from_millis(200));
-    r
+    r.unwrap_or(None)
+}
+
+/// A panic raised inside the library under test (not by the harness, quinn or tokio).
+fn library_panic(p: &str) -> bool {
+    p.contains("/repo/wtransport")
 }
 
 /// Liveness rule: where the statement promises completion, a timeout that reproduces on 3 of 3
@@ -54,6 +61,20 @@ pub fn judge(exec: impl Fn() -> CaseResult, liveness_promised: bool, timeout_sig
         }
     }
     let panics = vcore::panic_log_since(panics_before);
+    // the library itself panicked and the case did not come to a verdict of its own: the panic
+    // is the finding if it comes back when the case is executed again
+    if !matches!(r, CaseResult::Violation { .. } | CaseResult::Pass { .. }) {
+        if let Some(p) = panics.iter().find(|p| library_panic(p)) {
+            for _ in 0..2 {
+                let before = vcore::panic_log_len();
+                let _ = exec();
+                if vcore::panic_log_since(before).iter().any(|q| library_panic(q)) {
+                    let prop = timeout_signature.split(':').next().unwrap_or("C00");
+                    return Outcome::fail(format!("{prop}:library-panic"), format!("the library panicked while the case was executed (reproduced): {p}"));
+                }
+            }
+        }
+    }
     match r {
         CaseResult::Pass { nontrivial, labels } => {
             if let Some(p) = panics.iter().find(|p| !benign_panic(p)) {
